@@ -33,7 +33,7 @@ ITER_SCOPE = scope_prefix("instruction::reduce::", "<instruction::reduce::", "in
 STDLIB_SCOPE = scope_prefix("stdlib::", "<stdlib::", "variable::try_from::", "<variable::Variable as std::convert::From<std::io")
 
 prop("C01",
-     [guard.run, guard.run_mustcall, misc.run_fnexit, misc.run_looptype, misc.run_slicetype, misc.run_celltype, queryguard.run, round11.run_queryimpl, fold.run, scope.run, round3.run_meetuse, round4.run_meetoperand, round3.run_assigntyping, round3.run_cellmember, lock.run_global, lock.run, round4.run_fnlocal, variance.run, round10.run_retkind, round11.run_parsescope],
+     [guard.run, guard.run_mustcall, misc.run_fnexit, misc.run_looptype, misc.run_slicetype, misc.run_celltype, queryguard.run, round11.run_queryimpl, fold.run, scope.run, round3.run_meetuse, round4.run_meetoperand, round3.run_assigntyping, round3.run_cellmember, lock.run_global, lock.run, round4.run_fnlocal, variance.run, round10.run_retkind, round11.run_parsescope, round11.run_matchdir, round11.run_unionall],
      "R-QUERYIMPL: the admissibility predicate of `+` `@` `\\` `$]` implies every Type query the result type unwraps (symbolic boolean paths). R-PARSESCOPE: a top-level statement is folded against the scope as it was before it. R-MEETOPERAND: conjoin answers with no constant but `!`. R-LOCK (a cell read without its lock, or through a second lock, lets a checked value change under the reader). R-VARIANCE: every assignability test of the checker goes through Type::matches, whose direction clauses and mandatory conjuncts are part of soundness. R-FNLOCAL: the scope entry of a function literal carries its result type. Also R-GLOBAL: no cache of parse results outlives the scope they were checked against. Also: Type::conjoin (a mere lower bound) is used only for parameter types (R-MEETUSE); `X=` is typed with the typing functions of X (R-ASSIGNTYPING). Decides the structural half of type soundness: all 43 static checks the soundness argument leans on exist, are tested "
      "before every success value of their creation function and cannot be bypassed (R-GUARD, R-MUSTCALL); falling off a function "
      "body yields () and MissingReturn stands in front of that for non-() functions (R-FNEXIT); the Type queries that compute "
@@ -43,7 +43,7 @@ prop("C01",
      "guard conditions are taken as written (a weakened but present condition is not detected)")
 
 prop("C02",
-     [partial(panic.run, name="R-PANIC"), errflow.run, stop.run, scope.run, orpat.run, lock.run, guard.run_execerror, variant.run, guard.run_mustcall, misc.run_looptype, layer.run, round3.run_assigntyping, round6.run_unarycall, round6.run_whobinds, cast.run, round11.run_selfname, round11.run_parsescope],
+     [partial(panic.run, name="R-PANIC"), errflow.run, stop.run, scope.run, orpat.run, lock.run, guard.run_execerror, variant.run, guard.run_mustcall, misc.run_looptype, layer.run, round3.run_assigntyping, round6.run_unarycall, round6.run_whobinds, cast.run, round11.run_selfname, round11.run_parsescope, round11.run_matchdir, round11.run_unionall],
      "R-SELFNAME / R-PARSESCOPE: a running declaration never overwrites a parameter with the function's own name; Code::parse folds a statement against a copy of the scope taken before the statement was created. R-CAST (an int converted to a length / index without a sign test in front of it: a negative constant becomes a huge allocation and a capacity panic). R-UNARYCALL / R-WHOBINDS: a callee's body never runs in the caller's scope, names are bound only by declaring constructs. Also R-ASSIGNTYPING (a compound assignment admitting operands its operator does not type ends in a failed downcast). Decides: the complete inventory of panic-capable sites (383 today) is matched per function and signature to a reviewed "
      "justification naming the check that discharges it (R-PANIC); no error or control signal is dropped (R-ERRFLOW); ExecStop is "
      "raised and caught only where the control-flow table says, with the documented routing (R-STOP); no callee declares into the "
@@ -113,7 +113,7 @@ prop("C08",
 
 prop("C09",
      [misc.run_units, misc.run_slicetype, partial(panic.run, scope=INDEX_SCOPE, name="R-PANIC"), orpat.run, cast.run,
-      partial(guard.run, only_variants=("CannotIndexWith", "CannotIndexInto", "CannotSlice"))],
+      partial(guard.run, only_variants=("CannotIndexWith", "CannotIndexInto", "CannotSlice")), round11.run_pairfield],
      "Decides: unit agreement (at::exec, Slicing::exec and std.len count chars, none measures bytes; negative indices are "
      "normalised with the same len), no unchecked index in at::exec, both bounds directions raise IndexOutOfBounds, all three "
      "slice bounds are type-checked (R-ORPAT, R-GUARD), index casts are exact (R-CAST). Does NOT decide the index arithmetic or "
@@ -155,7 +155,7 @@ prop("C12",
      [stop.run, evalorder.run,
       partial(guard.run, only_variants=("BreakOutsideLoop", "ContinueOutsideLoop", "ReturnOutsideFunction", "WrongReturn",
                                         "MatchNotCovered", "WrongCondition", "MissingReturn")),
-      partial(tables.run_dispatch, only=("match_arm", "stm", "line", "body")), pairflowrule.run, guard.run_mustcall, misc.run_looptype, round3.run_meetuse, round3.run_childkeep, round3.run_valuearm, forshape.run, round6.run_rekind],
+      partial(tables.run_dispatch, only=("match_arm", "stm", "line", "body")), pairflowrule.run, guard.run_mustcall, misc.run_looptype, round3.run_meetuse, round3.run_childkeep, round3.run_valuearm, forshape.run, round6.run_rekind, round11.run_unionall],
      "R-REKIND: folding a loop yields a loop (its catch site for break / continue stays). Also: arms are never dropped from a match (R-CHILDKEEP), not pruned by the non-exact Type::conjoin (R-MEETUSE); a value arm is decided by == alone (R-VALUEARM). Decides: a single catch site per signal (Loop::exec for Break/Continue, Function::exec for Return) with the documented "
      "routing, sugared loops emit Break inside a Loop, in_loop set/restored/reset (R-STOP); placement and exhaustiveness guards "
      "exist and dominate success (R-GUARD); arm loop returns at the first cover, branches are exclusive (R-EVALORDER); all three "
@@ -164,7 +164,7 @@ prop("C12",
 
 prop("C13",
      [parsepure.run, misc.run_celltype, partial(witness.run, only=("W3MutNotClone",)), lock.run, guard.run_mustcall,
-      partial(guard.run, only_variants=("WrongInitialization", "CannotDo2")), fold.run, evalorder.run, round3.run_assigntyping, round3.run_cellmember],
+      partial(guard.run, only_variants=("WrongInitialization", "CannotDo2")), fold.run, evalorder.run, round3.run_assigntyping, round3.run_cellmember, round11.run_unionall],
      "Also R-CELLMEMBER (a union of cell types is admitted member by member) and R-ASSIGNTYPING: the result type that must fit the cell is computed by the operator's own typing function. Decides: a cell is built only by executing `mut` (or as a type default), never while parsing/folding (R-PARSEPURE); Mut is "
      "not Clone, Variable::Mut holds Arc<Mut> (witness); assign::can_be_used asks mut_element_type and Type::matches, "
      "WrongInitialization guards creation (R-MUSTCALL, R-GUARD); update = read, kernel, store under one write guard, store after "
